@@ -297,7 +297,7 @@ static std::vector<Unit> units(){
     for(auto r : {rule_leja, rule_rleja, rule_rlejashifted, rule_maxlebesgue, rule_minlebesgue, rule_mindelta}) for(int d=1; d<=(th?3:2); d++) u.push_back({F_SEQUENCE, r, d, 0});
     for(int d=1; d<=(th?3:2); d++) u.push_back({F_FOURIER, rule_fourier, d, 0});
     if (g_prop == "C03"){
-        for(auto r : {rule_localp, rule_semilocalp, rule_localp0, rule_localpb}) for(int order : {-1, 0, 1, 2, 3, 4}) for(int d=1; d<=(th?3:2); d++){ if (r == rule_semilocalp && order >= 0 && order < 2) continue; u.push_back({F_LOCALP, r, d, order}); }
+        for(auto r : {rule_localp, rule_semilocalp, rule_localp0, rule_localpb}) for(int order : {-1, 0, 1, 2, 3, 4}) for(int d=1; d<=3; d++){ if (r == rule_semilocalp && order >= 0 && order < 2) continue; if (!th && d == 3 && !(order == 1 || order == 2)) continue; u.push_back({F_LOCALP, r, d, order}); } // 3-D: the Kronecker surplus algorithm
         for(int order : {1, 3}) for(int d=1; d<=2; d++) u.push_back({F_WAVELET, rule_wavelet, d, order});
     }
     return u;
